@@ -51,15 +51,17 @@ KANI = {'K1.default': K1, 'K1.no-default-features': K1MIN, 'K2.first_fit_n3': K2
 PROPS = {
     'C01': {
         'units': ['U11', 'U6', 'U1', 'U13', 'U14', 'U15', 'U17', 'U20'], 'level': 'other', 'trusted': ['A1', 'A3', 'A4', 'A5', 'A9', 'A10', 'A12', 'A14', 'A15', 'R15', 'R16'],
-        'proved_part': 'Verus (all inputs): wrap_single_line_slow_path appends, for an ordered partition (runs) of a tiling of the line, exactly '
-                       'indent_k ++ line[a_k .. a_k+len_k] ++ penalty_k with a_k = bytes of all earlier runs (whitespace included) and len_k = bytes of run k minus its last '
-                       'whitespace — so slices are in order, never overlap, and only trailing whitespace of each run is skipped; earlier lines are untouched; Word::from is lossless '
-                       'with space-only whitespace; break_words is lossless; wrap_first_fit returns an ordered partition.',
-        'bounded_part': 'BEC (bounded, exhaustive within scope): the end-to-end statement on wrap/fill (borrowed slices by pointer, skipped characters are only spaces/line endings, '
-                        'no trailing space, fill = joined lines) and the assumed tiling of find_words/split_words/break_apart.',
-        'explanation': 'Mixed: the reassembly of lines from words is proved for all inputs by Verus on the extracted functions (U11, U6, U1); the word finders/splitters are '
-                       'closures Verus cannot take, so their tiling contract is assumed there and checked by bounded exhaustive enumeration (BEC), which also checks the '
-                       'end-to-end statement on the real crate for every text/option combination of its scope.',
+        'proved_part': 'Verus (all inputs), for the whole text: wrap returns lines such that line k is indent_k ++ text[a_k .. b_k] ++ (nothing | a single hyphen), with a_0 == 0, '
+                       'b_k <= a_(k+1) (slices in order, never overlapping), everything between two consecutive slices being ASCII spaces followed by at most one line ending, and '
+                       'only spaces after the last slice — so nothing but such spaces and line endings is lost, and nothing is duplicated, reordered or invented (U11: wrap, '
+                       'wrap_single_line with its shortcut, wrap_single_line_slow_path; every slice is taken on char boundaries). This rests on the contracts of the word pipeline, '
+                       'each proved in its own unit and restated in U11: the words found tile the line with spaces-only whitespace and no penalty (U13, U20), splitting and '
+                       'force-breaking keep the tiling and add at most a hyphen penalty (U14, U15, U6), the line breakers return an ordered partition (U1, U2, U17). The shortcut '
+                       'line is borrowed (Cow::Borrowed); fill == the lines joined (U12).',
+        'bounded_part': 'BEC (bounded, exhaustive within scope): pointer identity of borrowed lines with the caller\'s buffer, "a slice never ends in a space except after a forced '
+                        'break", and the whole statement again by execution on the real crate for every text/option combination of its scope.',
+        'explanation': 'Mixed, mostly proved: the statement\'s first two sentences are a discharged postcondition of wrap itself (relative to the restated contracts of the word '
+                       'pipeline, DESIGN.md §2.8, and std\'s str::split / slicing, A4); the pointer-level clause and the last sentence are checked by bounded exhaustive enumeration.',
     },
     'C02': {
         'units': ['U11', 'U1', 'U6', 'U22'], 'level': 'other', 'trusted': ['A1', 'A4', 'A5', 'A9', 'A12', 'R15'],
@@ -123,7 +125,8 @@ PROPS = {
     },
     'C09': {
         'units': ['U11', 'U12', 'U22'], 'level': 'other', 'trusted': ['A3', 'A4', 'A9', 'A12', 'R15'],
-        'proved_part': 'Verus: each paragraph appends >= 1 line and never touches earlier lines (never fewer lines than paragraphs, never joined across a break); '
+        'proved_part': 'Verus: each paragraph appends >= 1 line and never touches earlier lines (never fewer lines than paragraphs); every slice lies inside one paragraph and consecutive '
+                       'slices are separated by at most one line ending, so text is never joined across a break (U11, whole-text contract of wrap); '
                        'fill_slow_path == wrap\'s lines joined by the configured line ending (U12); the by-reference conversion of Options copies every option unchanged and each setter changes exactly its field (U22); fill == wrap\'s lines joined for every text, shortcut included (U12: fill calls the fill_slow_path contract proved in the same unit; from U11 only '
                        'wrap\'s shortcut postcondition is restated).',
         'bounded_part': 'BEC: wrap(a+E+b) begins with wrap(a), the rest is independent of a and equals wrap(b) for empty indents; LF<->CRLF equivariance; fill fast path.',
